@@ -30,4 +30,242 @@ public:
   void flush_every(long n) { if (since >= n) flush(); }
 };
 } // namespace nd
+
+// ------------------------------------------------------------------ multi-dimensional part
+#include "stir/Array.h"
+#include "stir/IndexRange.h"
+#include "stir/BasicCoordinate.h"
+#include "stir/shared_ptr.h"
+#include <functional>
+#include <memory>
+#include <vector>
+#include <sys/types.h>
+#include <sys/wait.h>
+#include <unistd.h>
+
+namespace c11n {
+using namespace stir;
+
+// a range tree (what an IndexRange<D> is built from / what it reports)
+struct RT { int lo = 0, hi = -1; bool leaf = true; std::vector<RT> r; };
+inline std::string rt_json(const RT& t) {
+  std::string s = "{\"lo\":" + std::to_string(t.lo) + ",\"hi\":" + std::to_string(t.hi);
+  if (!t.leaf) { s += ",\"r\":["; for (size_t i = 0; i < t.r.size(); ++i) { if (i) s += ","; s += rt_json(t.r[i]); } s += "]"; }
+  return s + "}";
+}
+inline long rt_size(const RT& t) { if (t.leaf) return t.hi >= t.lo ? t.hi - t.lo + 1 : 0; long n = 0; for (auto& x : t.r) n += rt_size(x); return n; }
+inline bool rt_has_empty(const RT& t) { if (t.hi < t.lo) return true; if (!t.leaf) for (auto& x : t.r) if (rt_has_empty(x)) return true; return false; }
+// seeded generation of a range tree of dimension d
+inline RT rt_gen(int d, vh::Rng& rng, bool regular, bool allow_empty, int maxlen, int maxrows) {
+  RT t;
+  if (d == 1) {
+    t.leaf = true;
+    int len = rng.range(allow_empty && rng.range(0, 5) == 0 ? 0 : 1, maxlen);
+    if (len == 0) { t.lo = 0; t.hi = -1; } else { t.lo = rng.range(-2, 3); t.hi = t.lo + len - 1; }
+    return t;
+  }
+  t.leaf = false;
+  int n = rng.range(allow_empty && rng.range(0, 7) == 0 ? 0 : 1, maxrows);
+  if (n == 0) { t.lo = 0; t.hi = -1; return t; }
+  t.lo = rng.range(-1, 2); t.hi = t.lo + n - 1;
+  if (regular) { RT sub = rt_gen(d - 1, rng, true, allow_empty, maxlen, maxrows); for (int i = 0; i < n; ++i) t.r.push_back(sub); }
+  else for (int i = 0; i < n; ++i) t.r.push_back(rt_gen(d - 1, rng, rng.range(0, 2) == 0, allow_empty, maxlen, maxrows));
+  return t;
+}
+// extend a range tree (for grow(): the old range must be inside the new one)
+inline RT rt_extend(const RT& t, int d, vh::Rng& rng, int maxlen, int maxrows) {
+  RT n = t;
+  if (t.hi < t.lo) return rt_gen(d, rng, false, true, maxlen, maxrows);
+  const int cur = t.hi - t.lo + 1;
+  const int room = (t.leaf ? maxlen + 2 : maxrows + 1) - cur;      // keep the arrays small
+  int dl = rng.range(0, 1), dh = rng.range(0, 1);
+  if (dl + dh > room) { dl = room > 0 ? dl : 0; dh = room > dl ? dh : 0; if (dl + dh > room) dh = 0; }
+  if (t.leaf) { n.lo = t.lo - dl; n.hi = t.hi + dh; return n; }
+  n.r.clear(); n.lo = t.lo - dl; n.hi = t.hi + dh;
+  for (int i = n.lo; i <= n.hi; ++i) {
+    if (i >= t.lo && i <= t.hi) n.r.push_back(rt_extend(t.r[i - t.lo], d - 1, rng, maxlen, maxrows));
+    else n.r.push_back(rt_gen(d - 1, rng, false, true, maxlen, maxrows));
+  }
+  return n;
+}
+
+template <int D> struct Build {
+  static IndexRange<D> make(const RT& t) {
+    if (t.hi < t.lo) return IndexRange<D>();
+    VectorWithOffset<IndexRange<D - 1>> rows(t.lo, t.hi);
+    for (int i = t.lo; i <= t.hi; ++i) rows[i] = Build<D - 1>::make(t.r[i - t.lo]);
+    return IndexRange<D>(rows);
+  }
+  static RT read(const IndexRange<D>& r) {
+    RT t; t.leaf = false; t.lo = r.get_min_index(); t.hi = r.get_max_index();
+    int cnt = 0;
+    for (int i = t.lo; i <= t.hi && cnt < 64; ++i, ++cnt) t.r.push_back(Build<D - 1>::read(r[i]));
+    return t;
+  }
+};
+template <> struct Build<1> {
+  static IndexRange<1> make(const RT& t) { return IndexRange<1>(t.lo, t.hi); }
+  static RT read(const IndexRange<1>& r) { RT t; t.leaf = true; t.lo = r.get_min_index(); t.hi = r.get_max_index(); return t; }
+};
+
+// what the API of an array answers, as a tree
+template <int D> struct Obs {
+  static std::string tree(const Array<D, float>& a, const float* blk, int K) {
+    std::string s = "{\"lo\":" + std::to_string(a.get_min_index()) + ",\"hi\":" + std::to_string(a.get_max_index()) + ",\"r\":[";
+    int cnt = 0;
+    for (int i = a.get_min_index(); i <= a.get_max_index() && cnt < 64; ++i, ++cnt) { if (cnt) s += ","; s += Obs<D - 1>::tree(a[i], blk, K); }
+    return s + "]}";
+  }
+  static Array<1, float>* leaf_at(Array<D, float>& a, const std::vector<int>& c, size_t k) { return Obs<D - 1>::leaf_at(a[c[k]], c, k + 1); }
+  // a random existing element / leaf (false if the walk meets an empty sub-array)
+  static bool walk(const Array<D, float>& a, vh::Rng& rng, std::vector<int>& c, bool to_leaf) {
+    if (a.size() == 0) return false;
+    int i = rng.range(a.get_min_index(), a.get_max_index());
+    c.push_back(i);
+    return Obs<D - 1>::walk(a[i], rng, c, to_leaf);
+  }
+};
+template <> struct Obs<1> {
+  static std::string tree(const Array<1, float>& a, const float* blk, int K) {
+    std::vector<long long> v; int cnt = 0;
+    for (int i = a.get_min_index(); i <= a.get_max_index() && cnt < 256; ++i, ++cnt) v.push_back(nd::enc(a[i]));
+    const float* first = a.begin(); long cell = 0;
+    if (first != nullptr && std::greater_equal<const float*>()(first, blk) && std::less<const float*>()(first, blk + K)) cell = (first - blk) + 1;
+    vh::Json j; j.num("lo", a.get_min_index()).num("hi", a.get_max_index()).arr("v", v).num("cell", a.size() > 0 ? cell : 0);
+    return j.done();
+  }
+  static Array<1, float>* leaf_at(Array<1, float>& a, const std::vector<int>&, size_t) { return &a; }
+  static bool walk(const Array<1, float>& a, vh::Rng& rng, std::vector<int>& c, bool to_leaf) {
+    if (to_leaf) return true;
+    if (a.size() == 0) return false;
+    c.push_back(rng.range(a.get_min_index(), a.get_max_index()));
+    return true;
+  }
+};
+
+template <int D> struct NSys {
+  typedef Array<D, float> A;
+  std::unique_ptr<A> s[2];
+  shared_ptr<float[]> blk;
+  int K;
+  explicit NSys(int K_) : K(K_) { s[0].reset(new A()); s[1].reset(new A()); blk = shared_ptr<float[]>(new float[K]); for (int c = 0; c < K; ++c) blk[c] = (float)(101 + c); }
+};
+
+template <int D> std::string observe_arr(const Array<D, float>& a, const float* blk, int K) {
+  vh::Json j;
+  j.raw("t", Obs<D>::tree(a, blk, K)).num("sz", (long long)a.size_all()).num("sum", nd::enc(a.sum())).boolean("reg", a.is_regular())
+      .raw("rng", rt_json(Build<D>::read(a.get_index_range()))).num("n", (long long)a.size()).boolean("em", a.empty());
+  return j.done();
+}
+template <int D> std::string observe(const NSys<D>& y, const std::string& extra = "") {
+  std::vector<long long> b; for (int c = 0; c < y.K; ++c) b.push_back(nd::enc(y.blk[c]));
+  vh::Json j;
+  j.raw("s", "[" + observe_arr<D>(*y.s[0], y.blk.get(), y.K) + "," + observe_arr<D>(*y.s[1], y.blk.get(), y.K) + "]").arr("blk", b)
+      .boolean("eq", *y.s[0] == *y.s[1]);
+  std::string s = j.done();
+  if (!extra.empty()) { s.pop_back(); s += "," + extra + "}"; }
+  return s;
+}
+
+// run f in a child process first: false if the child ended in a sanitizer report / signal
+inline bool survives(const std::function<void()>& f, void (*child_setup)()) {
+  fflush(nullptr);
+  pid_t pid = fork();
+  if (pid < 0) return true;
+  if (pid == 0) {
+    child_setup();
+    try { f(); } catch (...) {}
+    _exit(0);
+  }
+  int status = 0;
+  waitpid(pid, &status, 0);
+  return WIFEXITED(status) && WEXITSTATUS(status) == 0;
+}
+
+template <int D> BasicCoordinate<D, int> coord(const std::vector<int>& c) { BasicCoordinate<D, int> b; for (int i = 1; i <= D; ++i) b[i] = c[i - 1]; return b; }
+
+struct NOp { std::string k; int t = 1, a = 0, b = 0; std::vector<int> c; RT R; bool forked = false; bool want_contig = false; };
+inline std::string nop_json(const NOp& o) {
+  vh::Json j; j.str("k", o.k).num("t", o.t).num("a", o.a).num("b", o.b).arr("c", o.c).raw("R", rt_json(o.R));
+  return j.done();
+}
+
+// choose the next operation from what the objects currently answer (inputs only, no expectations)
+template <int D> NOp choose(vh::Rng& rng, NSys<D>& y, bool calm) {
+  typedef Array<D, float> A;
+  NOp o; o.t = rng.range(1, 2);
+  A& T = *y.s[o.t - 1];
+  const int maxlen = D >= 4 ? 2 : 3, maxrows = D >= 4 ? 2 : 3;
+  int r = calm ? 100 + rng.range(0, 1) : rng.range(0, 99);
+  if (r < 6) { o.k = "NConstruct"; o.R = rt_gen(D, rng, rng.coin(), true, maxlen, maxrows); o.want_contig = !rt_has_empty(o.R); }
+  else if (r < 11) { o.k = "NView"; o.t = 1; bool ok = false; for (int i = 0; i < 20 && !ok; ++i) { o.R = rt_gen(D, rng, rng.coin(), false, 2, 2); ok = rt_size(o.R) <= y.K; } if (!ok) { o.k = "NNop"; o.R = RT(); } else o.want_contig = true; }
+  else if (r < 12) o.k = "NDefault";
+  else if (r < 15) o.k = "NCopy";
+  else if (r < 18) o.k = "NAssign";
+  else if (r < 20) { o.k = "NMove"; o.t = 1; }
+  else if (r < 21) o.k = "NRecycle";
+  else if (r < 31) { o.k = "NResize"; o.R = rng.range(0, 2) ? rt_extend(Build<D>::read(T.get_index_range()), D, rng, maxlen, maxrows) : rt_gen(D, rng, rng.coin(), true, maxlen, maxrows);
+                     if (rng.range(0, 2) == 0 && !o.R.leaf && o.R.hi > o.R.lo) { o.R.hi -= 1; o.R.r.pop_back(); } }
+  else if (r < 38) { o.k = "NGrow"; o.R = rt_extend(Build<D>::read(T.get_index_range()), D, rng, maxlen, maxrows); }
+  else if (r < 44) { o.k = "NRowResize"; if (!Obs<D>::walk(T, rng, o.c, true)) { o.k = "NNop"; o.c.clear(); } else { Array<1, float>* lf = Obs<D>::leaf_at(T, o.c, 0); o.a = lf->get_min_index() + rng.range(-1, 1); o.b = lf->get_max_index() + rng.range(-1, 2); if (lf->size() == 0) { o.a = rng.range(-1, 1); o.b = o.a + rng.range(-1, 2); } } }
+  else if (r < 48) { o.k = "NFill"; o.a = rng.range(-3, 9); }
+  else if (r < 53) { o.k = "NIotaAll"; o.a = rng.range(-5, 20); o.forked = true; }
+  else if (r < 58) { o.k = "NIterAll"; o.forked = true; }
+  else if (r < 64) { o.k = rng.coin() ? "NSetAt" : "NGetAt"; o.a = rng.range(-9, 9);
+                     if (!Obs<D>::walk(T, rng, o.c, false)) { o.c.assign(D, 0); } if (rng.range(0, 2) == 0) o.c[rng.range(0, D - 1)] += rng.coin() ? 1 : -1; }
+  else if (r < 68) { o.k = "NSet"; o.a = rng.range(-9, 9); if (!Obs<D>::walk(T, rng, o.c, false)) { o.k = "NNop"; o.c.clear(); } }
+  else if (r < 80) { static const char* ks[] = { "NVAdd", "NVSub", "NVMul", "NVDiv" }; o.k = ks[rng.range(0, 3)]; }
+  else if (r < 86) { static const char* ks[] = { "NSAdd", "NSSub", "NSMul", "NSDiv" }; o.k = ks[rng.range(0, 3)]; o.a = rng.range(-2, 3); if (o.k == "NSDiv" && o.a == 0) o.a = 2; }
+  else if (r < 90) { o.k = rng.coin() ? "NSapyb" : "NXapyb"; o.a = rng.range(-2, 2); o.b = rng.range(-2, 2); o.forked = true; }
+  else if (r < 94) { o.k = "NContig"; o.forked = true; }
+  else if (r < 100) { o.k = "NMemSet"; o.t = 1; o.a = rng.range(1, y.K); o.b = rng.range(-9, 9); }
+  else if (r == 100) { o.k = "NFill"; o.a = rng.range(0, 3); }
+  else { o.k = "NSMul"; o.a = 0; }
+  return o;
+}
+
+struct NOutcome { bool err = false; std::vector<long long> res; bool contig = false; };
+
+template <int D> void perform(NSys<D>& y, const NOp& op, NOutcome& out) {
+  typedef Array<D, float> A;
+  A& T = *y.s[op.t - 1]; A& O = *y.s[2 - op.t];
+  const std::string& k = op.k;
+  if (k == "NDefault") y.s[op.t - 1].reset(new A());
+  else if (k == "NConstruct") { y.s[op.t - 1].reset(new A(Build<D>::make(op.R))); }
+  else if (k == "NView") { y.s[op.t - 1].reset(new A(Build<D>::make(op.R), y.blk)); }
+  else if (k == "NCopy") { std::unique_ptr<A> n(new A(O)); y.s[op.t - 1] = std::move(n); }
+  else if (k == "NAssign") T = O;
+  else if (k == "NMove") { std::unique_ptr<A> n(new A(std::move(O))); y.s[op.t - 1] = std::move(n); }
+  else if (k == "NRecycle") T.recycle();
+  else if (k == "NResize") T.resize(Build<D>::make(op.R));
+  else if (k == "NGrow") T.grow(Build<D>::make(op.R));
+  else if (k == "NRowResize") Obs<D>::leaf_at(T, op.c, 0)->resize(op.a, op.b);
+  else if (k == "NFill") T.fill((float)op.a);
+  else if (k == "NIotaAll") { int x = op.a; for (auto it = T.begin_all(); it != T.end_all(); ++it) *it = (float)(x++); }
+  else if (k == "NIterAll") { const A& c = T; long cnt = 0; for (auto it = c.begin_all_const(); it != c.end_all_const() && cnt < 4096; ++it, ++cnt) out.res.push_back(nd::enc(*it)); }
+  else if (k == "NSetAt") T.at(coord<D>(op.c)) = (float)op.a;
+  else if (k == "NGetAt") { const A& c = T; out.res.push_back(nd::enc(c.at(coord<D>(op.c)))); }
+  else if (k == "NSet") T[coord<D>(op.c)] = (float)op.a;
+  else if (k == "NVAdd") T += O;
+  else if (k == "NVSub") T -= O;
+  else if (k == "NVMul") T *= O;
+  else if (k == "NVDiv") T /= O;
+  else if (k == "NSAdd") T += (float)op.a;
+  else if (k == "NSSub") T -= (float)op.a;
+  else if (k == "NSMul") T *= (float)op.a;
+  else if (k == "NSDiv") T /= (float)op.a;
+  else if (k == "NSapyb") T.sapyb((float)op.a, O, (float)op.b);
+  else if (k == "NXapyb") T.xapyb(O, (float)op.a, O, (float)op.b);
+  else if (k == "NMemSet") y.blk[op.a - 1] = (float)op.b;
+  else if (k == "NContig") out.res.push_back(T.is_contiguous() ? 1 : 0);
+  else if (k == "NNop") {}
+  else { fprintf(stderr, "unknown nd op %s\n", k.c_str()); _exit(3); }
+}
+
+template <int D> bool large_values(const NSys<D>& y) {
+  for (int t = 0; t < 2; ++t) { long long e = nd::enc(y.s[t]->sum()); if (e == nd::UNSPEC || e > 2000 || e < -2000) return true; }
+  return false;
+}
+
+} // namespace c11n
 #endif
